@@ -139,6 +139,8 @@ def check_run(st, sb, roots, toks, kind, tagset, rc, out, err, log, script, rp, 
         for seq in range(len(inv)):
             if seq < len(outcomes) and outcomes[seq] != "0":
                 failed = True
+                if outcomes[seq].startswith("k"):
+                    st.inc("invocations_killed_by_signal")
     if missing:
         failed = any(items for _, (node, items) in renv.plus.items())
     if failed:
@@ -206,7 +208,10 @@ def small_worker(job):
             missing = False
             r = rng.random()
             if r < 0.35:
-                script = ",".join(rng.choice(["0", "0", "1", "2", "255"]) for _ in range(40))
+                script = ",".join(rng.choice(["0", "0", "0", "1", "2", "255", "k9", "k15"]) for _ in range(40))
+                if rng.random() < 0.3:
+                    # exactly one invocation dies from a signal, everything else succeeds
+                    script = ",".join("k9" if j == rng.randrange(3) else "0" for j in range(3)) + ",0" * 20
             elif r < 0.45:
                 missing = True
                 toks = [("/nonexistent/verif-cmd" if x == common.REC else x) for x in toks]
@@ -268,7 +273,7 @@ def big_worker(job):
             i += 1
         script = None
         if idx % 3 == 1:
-            script = ",".join(rng.choice(["0", "0", "0", "1"]) for _ in range(400))
+            script = ",".join(rng.choice(["0", "0", "0", "1", "k15"]) for _ in range(400)) if idx % 2 else "0,k9" + ",0" * 60
         elif idx % 3 == 0:
             script = "1,0"       # only the first (mid-walk) batch fails
         if script:
@@ -330,5 +335,5 @@ def run(ctx):
                     k += 1
     ctx.pmap(big_worker, big, nproc=6)
     for key in ("actions_with_several_batches", "runs_with_quit", "runs_with_failing_invocation", "missing_command_runs",
-                "kind:-execdir", "runs_with_two_starting_points", "big_runs"):
+                "kind:-execdir", "runs_with_two_starting_points", "big_runs", "invocations_killed_by_signal"):
         ctx.require(key, 2)
